@@ -85,7 +85,9 @@ impl Prop for C14 {
                     let new = match ch.below(7) {
                         0 => format!("L{n}"),
                         // upper-case look-alikes of register names are ordinary labels
-                        6 => format!("{}{n}", ["T", "S", "A", "X"][n % 4]),
+                        6 if n % 2 == 0 => format!("{}{n}", ["T", "S", "A", "X"][(n / 2) % 4]),
+                        // lower-case with a zero-padded index: not a register name either
+                        6 => format!("{}0{n}", ["t", "s", "a", "x"][(n / 2) % 4]),
                         4 => format!("__{s}"),
                         5 => format!("__x{n}__"),
                         1 => format!("_{}_{n}", s.to_uppercase()),
